@@ -155,7 +155,7 @@ def _leaves(stmts):
 
 def _normalise_blocks(tree):
     """Spelling normalisations applied to every module before analysis (positions of the original nodes are kept):
-      * ``a, b = X, Y`` with plain-name targets and Y not reading a  ->  ``a = X; b = Y``;
+      * ``a, b = X, Y`` with plain-name targets and Y not reading a  ->  ``a = X; b = Y`` (also ``self.a, self.b = x, y`` of plain names);
       * ``if c: ...leave  else: REST``  ->  ``if c: ...leave`` followed by REST   (leave = return / raise / continue / break);
       * in a loop body ``if c: continue`` followed by REST  ->  ``if not c: REST``.
     Rules then meet one statement shape for each of these equivalent spellings."""
@@ -170,10 +170,14 @@ def _normalise_blocks(tree):
             while k < len(blk):
                 st = blk[k]
                 if isinstance(st, ast.Assign) and len(st.targets) == 1 and isinstance(st.targets[0], ast.Tuple) and isinstance(st.value, ast.Tuple) \
-                        and len(st.targets[0].elts) == len(st.value.elts) >= 2 and all(isinstance(e, ast.Name) for e in st.targets[0].elts) \
+                        and len(st.targets[0].elts) == len(st.value.elts) >= 2 \
+                        and all(isinstance(e, ast.Name) or (isinstance(e, ast.Attribute) and isinstance(e.value, ast.Name) and e.value.id == "self") for e in st.targets[0].elts) \
                         and not any(isinstance(v, ast.Starred) for v in st.value.elts):
-                    names = [e.id for e in st.targets[0].elts]
+                    # targets: plain names, or attributes of self when every value is a plain name / constant (nothing can read them back)
+                    names = [e.id if isinstance(e, ast.Name) else "self." + e.attr for e in st.targets[0].elts]
                     indep = len(set(names)) == len(names)
+                    if any(isinstance(e, ast.Attribute) for e in st.targets[0].elts) and not all(isinstance(v, (ast.Name, ast.Constant)) for v in st.value.elts):
+                        indep = False
                     for i, v in enumerate(st.value.elts):
                         used = {n.id for n in ast.walk(v) if isinstance(n, ast.Name)}
                         if used & set(names[:i]):
